@@ -65,6 +65,7 @@ def cases(tier, seed):
             out.append({'kind': 'subclass', 'seed': case_seed('C14', seed, 'subclass', D, P, k), 'params': {'D': D, 'P': P, 'which': k}})
         for lay in gen.LAYOUTS + ['transposed-view', 'slice-of-larger']:
             out.append({'kind': 'layouts', 'seed': case_seed('C14', seed, 'layouts', D, P, lay), 'params': {'D': D, 'P': P, 'layout': lay}})
+        out.append({'kind': 'writes_input', 'seed': case_seed('C14', seed, 'writes_input', D, P), 'params': {'D': D, 'P': P}})
         for k in range(2):
             out.append({'kind': 'floordiv', 'seed': case_seed('C14', seed, 'floordiv', D, P, k), 'params': {'D': D, 'P': P}})
     return out
@@ -120,6 +121,57 @@ def _layouts(ctx, p, rng):
         if len(first) != len(second) or not all(a.shape == b.shape and np.array_equal(a, b, equal_nan=True) for a, b in zip(first, second)):
             ctx.violation('layouts:%s:second-evaluation-differs' % name, {'function': name, 'layout': lay, 'D': D, 'P': P}); return
         ctx.ok('layouts:' + name, ('layouts', name, lay, D, P))
+
+
+def _writes_input(ctx, p, rng):
+    """a recorded program that assigns into its own argument (x[0] = x[1] * x[2]): every driver evaluates the graph on its own copy of
+    the point - the caller's array is unchanged afterwards, may be read-only, and a second call returns the same values"""
+    from algopy import CGraph, Function
+    n = 4
+    xr = np.round(rng.normal(size=n), 2) + 0.5
+    cg = CGraph()
+    x = Function(xr.copy())
+    x[0] = x[1] * x[2]
+    y = algopy.sum(x * x)
+    cg.trace_off(); cg.independentFunctionList = [x]; cg.dependentFunctionList = [y]
+    cgv = CGraph()
+    xv = Function(xr.copy())
+    xv[0] = xv[1] * xv[2]
+    yv = xv * xv
+    cgv.trace_off(); cgv.independentFunctionList = [xv]; cgv.dependentFunctionList = [yv]
+    v = np.round(rng.normal(size=n), 2); w = np.round(rng.normal(size=n), 2)
+    g = lambda a: np.array([0.0, 2 * a[1] + 2 * a[1] * a[2] ** 2, 2 * a[2] + 2 * a[2] * a[1] ** 2, 2 * a[3]])
+    # (cg.function / pushforward run the program on the objects they are given, like calling the Python function would: not included)
+    drivers = [('gradient', cg, lambda a: cg.gradient(a)),
+               ('hessian', cg, lambda a: cg.hessian(a)), ('hess_vec', cg, lambda a: cg.hess_vec(a, v.copy())), ('jacobian', cgv, lambda a: cgv.jacobian(a)),
+               ('jac_vec', cgv, lambda a: cgv.jac_vec(a, v.copy())), ('vec_jac', cgv, lambda a: cgv.vec_jac(w.copy(), a)), ('vec_hess', cgv, lambda a: cgv.vec_hess(w.copy(), a))]
+    ctx.program_writes_input = True
+    try:
+        return _writes_input_drivers(ctx, p, rng, drivers, n, g)
+    finally:
+        ctx.program_writes_input = False
+
+
+def _writes_input_drivers(ctx, p, rng, drivers, n, g):
+    for name, graph, call in drivers:
+        xa = np.round(rng.normal(size=n), 2) + 0.25
+        keep = xa.copy()
+        for readonly in (False, True):
+            xa.setflags(write=not readonly)
+            try:
+                r1 = np.array(call(xa), dtype=float, copy=True)
+                r2 = np.array(call(xa), dtype=float, copy=True)
+            except Exception as e:
+                ctx.violation('writes-input:%s:raises' % name, {'driver': name, 'point_read_only': readonly, 'error': repr(e)[:160],
+                                                                'point_unchanged': bool(np.array_equal(xa, keep))}); return
+            if not np.array_equal(xa, keep):
+                ctx.violation('writes-input:%s:point-modified' % name, {'driver': name, 'before': keep.tolist(), 'after': xa.tolist()}); return
+            if not np.array_equal(r1, r2):
+                ctx.violation('writes-input:%s:second-call-differs' % name, {'driver': name}); return
+            if name == 'gradient' and not np.allclose(r1, g(keep), rtol=1e-12, atol=1e-12):
+                ctx.violation('writes-input:gradient:value', {'got': r1.tolist(), 'want': g(keep).tolist()}); return
+        else:
+            ctx.ok('writes-input:' + name, ('writes_input', name, p['D'], p['P']))
 
 
 def _floordiv(ctx, p, rng):
@@ -327,6 +379,8 @@ def run_case(ctx, case):
             probe.S.suppress = False
     if case['kind'] == 'layouts':
         return _layouts(ctx, case['params'], gen.rng_of(case))
+    if case['kind'] == 'writes_input':
+        return _writes_input(ctx, case['params'], gen.rng_of(case))
     if case['kind'] == 'floordiv':
         return _floordiv(ctx, case['params'], gen.rng_of(case))
     if case['kind'] == 'iouter':
